@@ -67,8 +67,11 @@ var crossValues = []string{"a", "b", "a", "b", "env", "tenant"}
 // one value, order, empty strings, case.
 var tenantValues = [][]string{
 	nil, {"a"}, {"b"}, {"a", "b"}, {"a "}, {"a, b"}, {" a"}, {"a,b"}, {"b", "a"}, {""}, {"", ""}, {"a", ""}, {"A"}, {"a b"}, {"a", "b", "c"}, {"a, b", "c"}, {"a", "b, c"},
-	// twins under whitespace trimming, Unicode normalisation, percent / plus
+	// single values that read like the rendering of a list or of nothing
+	// (seeded change C10f keys the shards by a textual encoding), twins under
+	// whitespace trimming, Unicode normalisation, percent / plus
 	// decoding, NUL truncation (seeded change C10e trims optional whitespace)
+	{"[]"}, {"[\"a\"]"}, {"[\"a\",\"b\"]"}, {"[a b]"}, {"null"}, {"<nil>"}, {"a\",\"b"},
 	{"a\t"}, {"a\n"}, {" "}, {"\u00e9"}, {"e\u0301"}, {"a%20b"}, {"a+b"}, {"a\x00"}, {"a", " b"}, {"a ", "b"},
 }
 
